@@ -165,7 +165,10 @@ def type_applicable(m, args, kws, env):
         a = M.ann_of(p)
         if S.is_dependent_spec(a):
             if a[0] == "dep":
-                return dict(p, ann=a[1])
+                b = a[1]
+                while b[0] == "dep":  # a value-dependent bound: its condition is ignored as well
+                    b = b[1]
+                return dict(p, ann=b)
             b = S.dep_bound(a, env)
             if b is None:
                 return dict(p, ann=["obj"])
